@@ -256,7 +256,6 @@ func c08RunHistory(run *vfRun, base string, c c08Case) {
 	}
 	cfg := Config{Timeout: time.Minute, TimeBetweenDKGPhases: c08Phase, KickoffGracePeriod: c08Kickoff}
 	nw := vfdNewNet(dir, c.BeaconID, sch, cfg, c.Seed)
-	defer nw.closeAll()
 	h := &c08H{run: run, c: c, net: nw, rng: vfNewRng(c.Seed ^ 0xc08)}
 	nw.onPanic = func(what, dst, val, where, stack string) {
 		if len(stack) > 2500 {
@@ -279,6 +278,13 @@ func c08RunHistory(run *vfRun, base string, c c08Case) {
 	h.pool = h.all[:c.N0+c.Spare]
 	h.outsider = h.all[c.N0+c.Spare]
 
+	defer func() {
+		if blocked := nw.closeAll(); len(blocked) > 0 {
+			// not a C08 matter (reported to the C14 owner): a node whose echo-broadcast board is wedged cannot be closed
+			run.Count("nodes_whose_close_blocked", int64(len(blocked)))
+			run.Note(fmt.Sprintf("case %d: Process.Close() blocked on %v; blocked frame: %s", c.Index, blocked, vfdBlockedFrame("passToApplication", 700)))
+		}
+	}()
 	h.drive()
 	h.recovery()
 
@@ -298,9 +304,9 @@ func c08RunHistory(run *vfRun, base string, c c08Case) {
 		key = hex.EncodeToString(hs.Sum(nil)[:10])
 	}
 	run.Eval(key)
-	if c.Index%64 == 0 {
+	if _, replay := vfReplayCase(); c.Index%64 == 0 || replay {
 		st := h.steps
-		if len(st) > 30 {
+		if len(st) > 30 && !replay {
 			st = st[:30]
 		}
 		run.Sample(map[string]any{"case": c, "steps_head": st})
